@@ -506,6 +506,14 @@ def oracle_pipe(ck, rng):
     if half.shape != (6, 6, 6): fails.append("from_array resampled shape")
     lst_ = pipe.from_arrays([img, img * 2], original_scale=1.0)(2.0)
     if [a_.shape for a_ in lst_] != [(6, 6, 6)] * 2: fails.append("from_arrays")
+    # the batch provider behaves like the single one for every (original_scale, tol, scale): unchanged within tol, resampled beyond it
+    for osc, tol_, sc in [(1.0, 0.1, 1.05), (1.0, 0.1, 0.93), (1.0, 0.001, 1.004), (0.5, 0.2, 0.58), (1.0, 0.01, 1.005), (1.0, 0.03, 1.2)]:
+        one = pipe.from_array(img, original_scale=osc, tol=tol_)(sc)
+        many = pipe.from_arrays([img, img * 2], original_scale=osc, tol=tol_)(sc)
+        within = abs(sc / osc - 1) < tol_
+        if [m_.shape for m_ in many] != [one.shape] * 2 or not np.allclose(many[0], one) or (within and not np.array_equal(many[1], img * 2)) \
+                or (within and not np.array_equal(one, img)):
+            fails.append(f"from_arrays tolerance (original_scale={osc}, tol={tol_}, scale={sc})")
     # loader glue
     ld = SubtomogramLoader(rng.normal(size=(20, 20, 20)).astype(np.float32), Molecules(np.full((2, 3), 10.0)), scale=0.5, output_shape=(6, 6, 6))
     t = ld.normalize_template(pipe.from_array(img, original_scale=0.5))
